@@ -173,6 +173,18 @@ def gen_cases(tier, seed):
         add({"op": "spi", "time": times, "b": b, "e": e, "groups": gr, "seed": rng.randrange(10**6), "strdate": rng.random() < 0.3, "dask": rng.random() < 0.2})
         if gr and b != -1 and e != -1:
             add({"op": "calidx", "time": times, "b": b, "e": e, "groups": gr, "ng": ng})
+    # many groups (numeric labels whose string order differs from their numeric order: 2 < 10 but '10' < '2'),
+    # several steps per group, window cutting through the first and the last cycle: per-group index pairs differ
+    for _ in range(6 if quick else 40):
+        ng = rng.choice([11, 12, 13, 36] if not quick else [11, 12, 36])
+        r = rng.choice([4, 5])
+        T = ng * r
+        times = [10 + 2 * i for i in range(T)]
+        base = rng.choice([0, 1])                      # labels 0..ng-1 or 1..ng (dekads of a year)
+        gr = [i % ng + base for i in range(T)]
+        b = times[rng.randint(1, ng - 1)] - rng.choice([0, 1])
+        e = times[T - 1 - rng.randint(1, ng - 1)] + rng.choice([0, 1])
+        add({"op": "spi", "time": times, "b": b, "e": e, "groups": gr, "seed": rng.randrange(10**6)})
     return cases
 
 
